@@ -580,6 +580,13 @@ def run_c08(ctx):
         v = dict(s)
         v['kind'] = 'reader'
         scs.append(v)
+        if len(scs) % 5 == 1:
+            # the same stream behind a null packet ending in 0x47 (a sync-like byte between the two sync bytes of 189..192-byte frames)
+            g = dict(s)
+            g['kind'] = 'reader'
+            g['sid'] = s['sid'] + '-g'
+            g['run'] = {'api': 'gtail'}
+            scs.append(g)
         # a variant whose second packet has a 0x47 byte in its header (PID 0x147 / 0x747): a legal stream in which bytes 189..192 look like
         # sync bytes to the packet size detection
         idx = [i for i, p in enumerate(s['pkts']) if p.get('pid') in (0x147, 0x747) and p.get('k', '') == '']
